@@ -76,11 +76,12 @@ EXPR_Q = R("expr_q", "expr_q.cfg", expect_ops=["expression", "request", "respons
 
 OBS_Q3 = R("obscure_q3", "obscure_q3.cfg", expect_ops=["compress_subject", "uncompress_subject", "encrypt_subject", "decrypt_subject", "replace_subject"])
 
-DEEP_S = R("deep_s", "deep_s.cfg", rounds=1, simulate="num=25", depth=10, workers=4, expect_ops=["add_salt", "add_signature", "elide_set", "encrypt_subject", "compress_subject"])
-DEEP_S_T = dict(DEEP_S, name="deep_s_t", simulate="num=400", rounds=2)
-DEEP_X = R("deep_x", "deep_x.cfg", rounds=1, simulate="num=25", depth=10, workers=4,
+# quick tier: ONE TLC worker - with a fixed seed the simulation then visits the same histories in every run
+DEEP_S = R("deep_s", "deep_s.cfg", rounds=1, simulate="num=60", depth=10, workers=1, expect_ops=["add_salt", "add_signature", "elide_set", "encrypt_subject", "compress_subject"])
+DEEP_S_T = dict(DEEP_S, name="deep_s_t", simulate="num=400", rounds=2, workers=4)
+DEEP_X = R("deep_x", "deep_x.cfg", rounds=1, simulate="num=60", depth=10, workers=1,
            expect_ops=["elide_set", "add_signature", "seal", "encrypt_subject_to_recipients", "proof_contains_set", "obs_confirm", "add_attachment", "forge_signed", "tamper", "sskr_join", "obs_verify"])
-DEEP_X_T = dict(DEEP_X, name="deep_x_t", simulate="num=300", rounds=2, timeout=3000)
+DEEP_X_T = dict(DEEP_X, name="deep_x_t", simulate="num=300", rounds=2, timeout=3000, workers=4)
 OBSCURE_T = R("obscure_t", "obscure_t.cfg", rounds=2, timeout=3000, expect_ops=["elide_set", "elide", "compress", "encrypt_subject", "unelide"])
 SSKR_T = R("sskr_t", "sskr_t.cfg", rounds=1, timeout=3000, expect_ops=["sskr_split_join"], expect_out=["sskr_split_join:ok", "sskr_split_join:err"])
 QUERY_T = R("query_t", "query_t.cfg", rounds=2, timeout=3000, expect_ops=["obs_walk", "obs_digests", "obs_lookup", "obs_extract", "obs_structure", "obs_tree_format", "obs_format"])
